@@ -139,7 +139,10 @@ class RelativeValueIteration(ValueIteration):
     def _initialize_solver_state_elements(self) -> None:
         """Initialize solver state elements."""
         super()._initialize_solver_state_elements()
-        self.gain = 0.0
+        # The gain subtracted in the first sweep is the initial value of the
+        # reference (last) state, so that the gain reported after any sweep,
+        # including the first, is the change in that state's value
+        self.gain = float(self.values[-1])
 
     def _iteration_step(self) -> tuple[ValueFunction, float]:
         """Perform one iteration of the solution algorithm.
